@@ -5,6 +5,7 @@
 import Proofs.C06_System
 import Proofs.C06_Refine
 import Proofs.C06_Write
+import Proofs.C06_Extend
 
 namespace Atomman.C06
 set_option linter.unusedSimpArgs false
